@@ -14,6 +14,7 @@
    Strings are abstracted to atoms: the code only compares prefixes/URIs for equality, tests
    emptiness, tests the literal strings "xmlns" / "xml" / startsWith("xml"), and invents "ns<N>". *)
 From Coq Require Import List NArith Bool.
+Require Import XV.GenNsfix.
 Import ListNotations.
 Local Open Scope N_scope.
 
@@ -156,6 +157,7 @@ Inductive hazard : Type :=
 | HDeclAttr      (* xsl:attribute whose final name is xmlns or xmlns:.. : creates a declaration *)
 | HElemEmptyNs   (* xsl:element name="p:l" namespace="" with p declared in the stylesheet *)
 | HElemUndecl    (* xsl:element name="p:l" namespace="" with p undeclared: xmlns:p="" *)
+| HExclDefault   (* prefixed LRE with its own xmlns="U", U excluded: written all the same *)
 | HUnsupported.  (* outside the modelled language *)
 
 Record st : Type := mkSt {
@@ -167,7 +169,7 @@ Record st : Type := mkSt {
   hz : list hazard
 }.
 
-Definition init_st : st := mkSt [] None [] 0 [] [].
+Definition init_st : st := mkSt [] None [] unique_counter_start [] [].
 
 Definition set_stk (s : st) (k : list ctx) := mkSt k (pend s) (pattrs s) (ctr s) (out s) (hz s).
 Definition set_pattrs (s : st) (l : list attr) := mkSt (stk s) (pend s) l (ctr s) (out s) (hz s).
@@ -255,13 +257,13 @@ Fixpoint unique_loop (fuel : nat) (k : list ctx) (c : N) : N :=
   | O => c
   | S f => match ns_for_prefix k (Some (AGen c)) with
            | None => c
-           | Some _ => unique_loop f k (c + 1)
+           | Some _ => unique_loop f k (c + unique_counter_step)
            end
   end.
 
 Definition gen_unique (s : st) : atom * st :=
   let c := unique_loop (S (length (concat (stk s)))) (stk s) (ctr s) in
-  (AGen c, mkSt (stk s) (pend s) (pattrs s) (c + 1) (out s) (hz s)).
+  (AGen c, mkSt (stk s) (pend s) (pattrs s) (c + unique_counter_step) (out s) (hz s)).
 
 (* ---------------------------------------------------------------------------------------- *)
 (* the instructions (a program is a flat, normally well-nested, list of these) *)
@@ -487,6 +489,12 @@ Definition exec_elem (s : st) (name : qname) (nsattr sns sdef : option uri) (pde
       end
   end.
 
+Fixpoint nodup_by {A} (eqb : A -> A -> bool) (l : list A) : bool :=
+  match l with
+  | [] => true
+  | x :: r => negb (existsb (eqb x) r) && nodup_by eqb r
+  end.
+
 (* ---- literal result element ---- *)
 
 Definition mem_uri (u : uri) (l : list uri) : bool := existsb (N.eqb u) l.
@@ -499,13 +507,19 @@ Fixpoint dedupe (l : list (pfx * uri)) (seen : list pfx) : list (pfx * uri) :=
   | (p, u) :: r => if mem_pfx p seen then dedupe r seen else (p, u) :: dedupe r (p :: seen)
   end.
 
+(* AVTPrefixChecker::isActive: only attribute names with a colon are looked at *)
+Definition attr_prefix_active (p : pfx) (attrs : list (qname * N)) : bool :=
+  match p with
+  | None => false
+  | Some _ => existsb (fun a => pfx_eqb p (fst (fst a))) attrs
+  end.
+
 (* m_namespaceDeclarations after the constructor and processExcludeResultPrefixes *)
 Definition lre_decls (name : qname) (inscope : list (pfx * uri)) (excl : list uri)
            (attrs : list (qname * N)) : list (pfx * uri) :=
-  let active := fst name :: map (fun a => fst (fst a)) attrs in
   filter (fun d => let '(p, u) := d in
             negb (N.eqb u uXSLT) && negb (N.eqb u uXML)
-            && (negb (mem_uri u excl) || mem_pfx p active))
+            && (negb (mem_uri u excl) || pfx_eqb p (fst name) || attr_prefix_active p attrs))
          (dedupe inscope []).
 
 (* NamespacesHandler::outputResultNamespaces, one declaration *)
@@ -520,7 +534,17 @@ Definition output_ns (s : st) (d : pfx * uri) : st :=
 Definition exec_lre (s : st) (name : qname) (inscope : list (pfx * uri)) (excl : list uri)
            (attrs : list (qname * N)) : st :=
   let req := req_lre_elem name inscope in
-  let s1 := start_elem s name req in
+  (* a literal xmlns="U" is also kept as an ordinary literal attribute (ElemLiteralResult::init only
+     skips names with the prefix xmlns), so it is written even when U is excluded *)
+  let hx := match fst name with
+            | None => false
+            | Some _ => existsb (fun a => qname_eqb (fst a) (None, AXmlns) && mem_uri (snd a) excl) attrs
+            end in
+  (* two literal attributes with one expanded name: the stylesheet is not namespace-well-formed *)
+  let hd := negb (nodup_by ename_eqb
+                    (map (fun a => req_lre_attr (fst a) inscope)
+                         (filter (fun a => match decl_prefix (fst a) with Some _ => false | None => true end) attrs))) in
+  let s1 := start_elem (add_hz_if hd HUnsupported (add_hz_if hx HExclDefault s)) name req in
   let s2 := fold_left output_ns (lre_decls name inscope excl attrs) s1 in
   let s3 :=
     match fst name with
@@ -607,12 +631,6 @@ Definition decl_ok (p : pfx) (u : uri) : bool :=
   | Some _ => negb (N.eqb u 0)
   end.
 
-Fixpoint nodup_by {A} (eqb : A -> A -> bool) (l : list A) : bool :=
-  match l with
-  | [] => true
-  | x :: r => negb (existsb (eqb x) r) && nodup_by eqb r
-  end.
-
 Definition plain_attrs (l : list attr) : list attr :=
   filter (fun a => match decl_prefix (a_name a) with Some _ => false | None => true end) l.
 
@@ -648,4 +666,4 @@ Definition wellformed (evs : list event) : bool :=
 Definition lre_decl_allowed (name : qname) (excl : list uri) (attrs : list (qname * N)) (d : pfx * uri) : bool :=
   negb (N.eqb (snd d) uXSLT) && negb (N.eqb (snd d) uXML)
   && (negb (mem_uri (snd d) excl) || pfx_eqb (fst d) (fst name)
-      || existsb (fun a => pfx_eqb (fst d) (fst (fst a))) attrs).
+      || attr_prefix_active (fst d) attrs).
